@@ -545,7 +545,10 @@ func sameLists(a, b [][]uint64) bool {
 	return true
 }
 
-type cpuStats struct{ signal, dup int; ambiguous bool }
+type cpuStats struct {
+	signal, dup int
+	ambiguous   bool
+}
 
 func expectCPU(d *Doc) (*Exp, cpuStats) {
 	var cs cpuStats
